@@ -1137,6 +1137,80 @@ func checkSockets(e *sink, rt *rtr, rcv, snd, batch int, how string, cs []call) 
 	}
 }
 
+// realSockets opens real UDP sockets on the loopback interface through conn.New (what the default
+// ConnOpener does) with the given conn.Config and reads SO_RCVBUF / SO_SNDBUF back (hook
+// conn.VerifCfgSockBufs). Sizes are kept inside [8 KiB, min(rmem_max, wmem_max)] where the kernel
+// stores exactly twice the requested value; 0 must leave the default. Skipped when the sandbox
+// does not allow sockets.
+func realSockets(e *vlib.Env, r *vlib.Rand, n int) {
+	lo := netip.MustParseAddrPort("127.0.0.1:0")
+	open := func(c conn.Config) (int, int, error) {
+		cn, err := conn.New(lo, netip.AddrPort{}, &c)
+		if err != nil {
+			return 0, 0, err
+		}
+		defer cn.Close()
+		return conn.VerifCfgSockBufs(cn)
+	}
+	dr, ds, err := open(conn.Config{})
+	if err != nil {
+		e.Extra["real_sockets"] = "skipped: " + err.Error()
+		return
+	}
+	limit := 1 << 20
+	for _, f := range []string{"/proc/sys/net/core/rmem_max", "/proc/sys/net/core/wmem_max"} {
+		b, err := os.ReadFile(f)
+		if err != nil {
+			e.Extra["real_sockets"] = "skipped: " + err.Error()
+			return
+		}
+		if v, err := strconv.Atoi(strings.TrimSpace(string(b))); err == nil && v < limit {
+			limit = v
+		}
+	}
+	if limit < 16384 {
+		e.Extra["real_sockets"] = "skipped: rmem_max/wmem_max too small"
+		return
+	}
+	e.Extra["real_sockets"] = fmt.Sprintf("default rcv=%d snd=%d limit=%d", dr, ds, limit)
+	pick := func() int {
+		if r.Chance(20) {
+			return 0
+		}
+		return 8192 + r.Intn(limit-8192+1)
+	}
+	show := func(req, got, dflt int) string {
+		switch {
+		case req == 0 && got == dflt:
+			return "-"
+		case req != 0 && got == 2*req:
+			return strconv.Itoa(req)
+		}
+		return fmt.Sprintf("?%d", got)
+	}
+	for i := 0; i < n; i++ {
+		rcv, snd := pick(), pick()
+		gr, gs, err := open(conn.Config{ReceiveBufferSize: rcv, SendBufferSize: snd})
+		ans := "err"
+		if err == nil {
+			ans = show(rcv, gr, dr) + " " + show(snd, gs, ds)
+		}
+		tag := "so/set"
+		if rcv == snd {
+			tag = "~so/equal"
+		}
+		e.Op(fmt.Sprintf("so %d %d", rcv, snd), ans, tag)
+		if err != nil {
+			continue
+		}
+		if (rcv != 0 && gr != 2*rcv) || (snd != 0 && gs != 2*snd) {
+			e.Violate("C17/socket-option", fmt.Sprintf("conn.Config{ReceiveBufferSize:%d, SendBufferSize:%d}: "+
+				"kernel holds SO_RCVBUF=%d SO_SNDBUF=%d (twice the set value; defaults %d/%d)", rcv, snd, gr, gs, dr, ds),
+				map[string]any{"receive_buffer_size": rcv, "send_buffer_size": snd, "so_rcvbuf": gr, "so_sndbuf": gs})
+		}
+	}
+}
+
 func genSize(r *vlib.Rand) int {
 	switch r.Intn(8) {
 	case 0:
@@ -1201,6 +1275,7 @@ func runC17(e *vlib.Env) {
 		})
 	}
 	runJobs(e, jobs)
+	realSockets(e, r, e.N(300, 3000))
 }
 
 func main() {
